@@ -37,6 +37,10 @@ def lchar(c):
     return "(Char.ofNat %d)" % ord(c)
 
 
+CONSTRUCTORS = {'IRI': ('PyOps.Obj.iri', 1), 'BNode': ('PyOps.Obj.bnode', 1), 'Property': ('PyOps.Obj.prop', 1), 'Literal': ('PyOps.Obj.lit', 2)}
+IS_INTEGER_BODY = "if float_number % 1.0 == 0:\n    return True\nreturn False"
+
+
 NARROWS = {'optstr': 'str', 'optint': 'matchpos'}     # `x is None` tests narrow an optional to this type
 EXC = {'ValueError': 'PyExc.valueError', 'RuntimeError': 'PyExc.runtimeError', 'IndexError': 'PyExc.indexError', 'KeyError': 'PyExc.keyError', 'TypeError': 'PyExc.typeError'}
 
@@ -57,6 +61,7 @@ class TrS:
         self.assumptions = assumptions
         self.uses_resolve = False
         self.uses_fuel = False
+        self.uses_float = False
         self.hoist = []                  # monadic binds (`let c ← PyOps.index x i`) the current statement needs first
         self.lazy_depth = 0              # > 0 inside `and` / `or` / conditional expressions
         self.fresh = 0
@@ -72,6 +77,29 @@ class TrS:
                 return "(%d : Int)" % n.value, 'int'
             if n.value is None:
                 return "none", 'optstr'
+        if isinstance(n, ast.Tuple) and len(n.elts) == 2:
+            (a, ta), (b, tb) = self.expr(n.elts[0]), self.expr(n.elts[1])
+            if ta == tb == 'str':
+                return "(%s, %s)" % (a, b), 'strpair'
+            raise Untranslatable("tuple of %s, %s" % (ta, tb))
+        if isinstance(n, ast.Call) and isinstance(n.func, ast.Name) and n.func.id in CONSTRUCTORS and self.consts.get('__imports__', {}).get(n.func.id, '').startswith('shexer.model.'):
+            # a model object built by the readers: IRI(content) / BNode(identifier) / Property(content) / Literal(content, elem_type)
+            lean, arity = CONSTRUCTORS[n.func.id]
+            order = {'content': 0, 'identifier': 0, 'elem_type': 1}
+            given = list(n.args) + [None] * (arity - len(n.args))
+            for kw in n.keywords:
+                if kw.arg not in order or order[kw.arg] >= arity or given[order[kw.arg]] is not None:
+                    raise Untranslatable("constructor keyword " + str(kw.arg))
+                given[order[kw.arg]] = kw.value
+            if len(n.args) > arity or any(g is None for g in given):
+                raise Untranslatable("constructor arguments of " + n.func.id)
+            parts = [self.expr(g) for g in given]
+            if any(t != 'str' for _, t in parts):
+                raise Untranslatable("constructor argument that is not a string")
+            return "(%s %s)" % (lean, " ".join(c for c, _ in parts)), 'obj'
+        if isinstance(n, ast.Call) and isinstance(n.func, ast.Name) and n.func.id == '_is_integer' and self.consts.get('_is_integer') == ('float_is_integer',) \
+                and len(n.args) == 1 and isinstance(n.args[0], ast.Name) and self.env.get(n.args[0].id) == 'floatint':
+            return n.args[0].id, 'bool'          # `float(tok) % 1.0 == 0`, the boolean the parameter `floatOf` returns
         if isinstance(n, ast.List) and not n.elts:
             return "([] : List (List Char))", 'strlist'
         if isinstance(n, ast.Name):
@@ -200,6 +228,12 @@ class TrS:
                 if len(self.consts[fkey]) > 6 and self.consts[fkey][6]:      # the callee runs a `while` loop: it takes the caller's fuel
                     self.uses_fuel = True
                     selfargs = ["fuel"] + selfargs
+                if len(self.consts[fkey]) > 8 and self.consts[fkey][8]:      # the callee calls float(): the same external function
+                    self.uses_float = True
+                    selfargs = ["floatOf"] + selfargs
+                if len(self.consts[fkey]) > 7 and self.consts[fkey][7]:      # the callee calls urljoin: the same external function
+                    self.uses_resolve = True
+                    selfargs = ["resolve"] + selfargs
                 self.hoist.append("let %s ← %s %s" % (v, lname, " ".join(selfargs + cargs)))
                 return v, rty
             if isinstance(f, ast.Attribute) and f.attr == 'search' and isinstance(f.value, ast.Name) and len(n.args) == 1 and not n.keywords \
@@ -493,6 +527,46 @@ class TrS:
                 raise Untranslatable("append of a non-string")
             v = s.value.func.value.id
             return self.flush("let %s := %s ++ [%s]\n  " % (v, v, e)) + self.block(tail, ret, in_loop)
+        if isinstance(s, ast.Assign) and len(s.targets) == 1 and isinstance(s.targets[0], ast.Tuple) and len(s.targets[0].elts) == 2 \
+                and all(isinstance(e_, ast.Name) for e_ in s.targets[0].elts):
+            e, t = self.expr(s.value)             # `a, b = f(x)` for a function returning a pair of strings
+            if t != 'strpair':
+                raise Untranslatable("unpacking of " + t)
+            a_, b_ = (e_.id for e_ in s.targets[0].elts)
+            for v_ in (a_, b_):
+                if v_ in self.env and self.env[v_] != 'str':
+                    raise Untranslatable("assignment changes the type of " + v_)
+                self.env[v_] = 'str'
+            self.fresh += 1
+            pr = "p_%d" % self.fresh
+            return self.flush("let %s := %s\n  let %s := %s.1\n  let %s := %s.2\n  " % (pr, e, a_, pr, b_, pr)) + self.block(tail, ret, in_loop)
+        if isinstance(s, ast.Try) and not in_loop and not s.orelse and not s.finalbody and len(s.handlers) == 1 and s.handlers[0].type is None \
+                and len(s.handlers[0].body) == 1 and isinstance(s.handlers[0].body[0], ast.Pass) and s.body and isinstance(s.body[0], ast.Assign) \
+                and len(s.body[0].targets) == 1 and isinstance(s.body[0].targets[0], ast.Name) and isinstance(s.body[0].value, ast.Call) \
+                and isinstance(s.body[0].value.func, ast.Name) and s.body[0].value.func.id == 'float' and len(s.body[0].value.args) == 1:
+            # `try: x = float(e); <statements that cannot raise, ending in return> except: pass` - float() is the parameter `floatOf`
+            # (none = ValueError, some b = the value is a whole number); what follows the `try` runs when float() raised
+            e, t = self.expr(s.body[0].value.args[0])
+            if t != 'str':
+                raise Untranslatable("float() of a non-string")
+            if not self.terminates(s.body[1:]):
+                raise Untranslatable("try body that does not end in return")
+            x = s.body[0].targets[0].id
+            self.uses_float = True
+            self.assumptions.add("float(tok) is the parameter floatOf: none = ValueError, some b = (the value % 1.0 == 0)")
+            old = self.env.get(x)
+            self.env[x] = 'floatint'
+            try:
+                n_h = len(self.hoist)
+                inner = self.block(list(s.body[1:]), ret)
+            finally:
+                if old is None:
+                    del self.env[x]
+                else:
+                    self.env[x] = old
+            if "←" in inner or "throw" in inner or len(self.hoist) != n_h:
+                raise Untranslatable("try body that may raise after float()")
+            return self.flush("match floatOf %s with\n  | some %s => (do\n  %s)\n  | none => (do\n  %s)" % (e, x, inner, self.block(tail, ret)))
         if isinstance(s, ast.Break) and is_while(in_loop):
             return "pure (PyOps.Ctl.brk %s)" % in_loop[1]
         if isinstance(s, ast.Continue) and is_while(in_loop):
@@ -613,7 +687,7 @@ class TrS:
         raise Untranslatable("stmt " + ast.dump(s)[:120])
 
 
-LEAN_TY = {'str': 'List Char', 'int': 'Int', 'bool': 'Bool', 'optstr': 'Option (List Char)', 'optint': 'Option Int', 'char': 'Char', 'matchpos': 'Int',
+LEAN_TY = {'obj': 'PyOps.Obj', 'strpair': 'List Char × List Char', 'str': 'List Char', 'int': 'Int', 'bool': 'Bool', 'optstr': 'Option (List Char)', 'optint': 'Option Int', 'char': 'Char', 'matchpos': 'Int',
            'strlist': 'List (List Char)', 'strdict': 'List (List Char × List Char)'}
 
 
@@ -631,6 +705,8 @@ def translate(out, report, assumptions, lean_name, fn, param_types, ret, consts,
         sig = " ".join("(%s : %s)" % (("self" + p[5:]) if p.startswith('self.') else p, LEAN_TY[t]) for p, t in selfattrs + params)
         if tr.uses_fuel:
             sig = "(fuel : Nat) " + sig
+        if tr.uses_float:
+            sig = "(floatOf : List Char → Option Bool) " + sig
         if tr.uses_resolve:
             sig = "(resolve : List Char → List Char → List Char) " + sig
         out.append("def %s %s : Except PyExc (%s) := do\n  %s\n" % (lean_name, sig, LEAN_TY[ret], body))
